@@ -179,6 +179,9 @@ def r18_2_3(run):
     loops = [n for n in walk_unit(u) if isinstance(n, ast.For) and any(isinstance(a, ast.Assign) and assign_to(a, SE) is not None for a in ast.walk(n))]
     run.ob('R18.3', u, u.node, 'existing ports are tried before configuring a new one', len(loops) == 1, slot='try-existing', message='%d loops assigning socks_endpoint' % len(loops))
     for lp in loops:
+        resets = [a for a in ast.walk(lp) if isinstance(a, ast.Assign) and assign_to(a, SE) is not None and is_none(assign_to(a, SE))]
+        run.ob('R18.3', u, lp, 'a usable existing listener, once found, is kept (never reset inside the candidate loop)', not resets, slot='no-reset-in-loop',
+               message='the candidate loop resets the chosen endpoint to None (e.g. when a later entry cannot be parsed): a usable listener is discarded and Tor is reconfigured')
         tv = lp.target.id
         tests = [t for t in ast.walk(lp) if isinstance(t, ast.Compare) and dotted(t.left) == tv and dotted(t.comparators[0]) == 'socks_config']
         ok = bool(tests) and all(isinstance(t.ops[0], (ast.NotEq, ast.Eq)) for t in tests)
